@@ -474,7 +474,7 @@ func checkC18(c *Check) {
 				return
 			}
 			dis := &Disagreement{Kind: "malformed-program", Script: d.script, Mode: d.mode, Expected: "well-formed machine code on every path",
-				Got: fmt.Sprintf("%s (body %s, offset %d, abstract stack height %d): %s", r.Why, r.Body, r.IP, r.Depth, detail),
+				Got:    fmt.Sprintf("%s (body %s, offset %d, abstract stack height %d): %s", r.Why, r.Body, r.IP, r.Depth, detail),
 				Detail: map[string]interface{}{"program": d}}
 			if strings.HasPrefix(r.Why, "underflow") && valuelessOperand(d.script) {
 				dis.Kind = "underflow-static"
